@@ -182,6 +182,19 @@ PROPS['C01'] = {
     'level_note': 'Level other (partial): helper layer only. Trusted/assumed: frame of custom(), bio_types stub, Verus/Z3.',
 }
 
+PROPS['C02'] = {
+    'level': 'other',
+    'units': ['C02/band'],
+    'kani': [],
+    'oracle': 'C02',
+    'decided': ['Band::new (empty band of the right shape), add_entry (the band grows, stays inside the matrix, and contains every cell within distance w of the position), add_gap (index-safe, grows; interpolation arithmetic within u32 for gap rectangles up to 2^31 cells), add_kmer (index-safe for every k-mer inside the matrix, grows, stays inside the matrix), full_matrix (covers every cell), num_cells (exactly the number of banded cells, no overflow below 2^31 rows/cols)'],
+    'undecided': ['soundness/exactness of the banded DP (compute_alignment), its MAX_CELLS guard, termination of the post-traceback completion, all custom_with_* entry points, Band::set_boundaries/create*',
+                  'add_kmer coverage (exact equality with the union of add_entry over the diagonal) is not proved, only safety and growth'],
+    'trusted': ['cmp::{min,max} std specs', 'derived Clone of Range (field-wise)'],
+    'level_text': 'Verus proves the band geometry layer of the banded aligner (shape, growth, coverage around an entry, index and overflow safety of all four band builders, exact cell count); the banded dynamic program itself is not decided by this check.',
+    'level_note': 'Level other (partial): band geometry only. Trusted: std min/max/Range::clone specs, Verus/Z3.',
+}
+
 NOT_APPLICABLE = {
     'C10': 'Myers traceback lives in impl_myers! macro bodies and generic handler traits over iterator adapter chains (rev().chain(cycle())): outside Verus extraction (macros, adapters) and outside Kani\'s tractable loop-free fragment; no contract within reach decides any clause (DESIGN.md §4 C10).',
     'C11': 'FASTA/FASTQ parsing is String-based (read_line, trim_end, splitn(char::is_whitespace), write!): Verus has no str byte reasoning or specs for these, Kani explodes on String/UTF-8/fmt (DESIGN.md §4 C11).',
